@@ -14,9 +14,10 @@ class LoopSpec(object):
 
 
 class Clause(object):
-    def __init__(self, name, fn, props=(), cases=None):
+    def __init__(self, name, fn, props=(), cases=None, lemma=False):
         self.name = name
         self.fn = fn
+        self.lemma = lemma          # proved first and then available as a hypothesis for the later clauses
         self.props = tuple(props)
         self.cases = dict(cases or {})   # known-finding guards: label -> fn(f) (over the pre-state)
 
@@ -58,8 +59,8 @@ class Contract(object):
         self.requires_.append(Clause(name, fn))
         return self
 
-    def ensures(self, name, fn, props=(), cases=None):
-        self.ensures_.append(Clause(name, fn, props, cases))
+    def ensures(self, name, fn, props=(), cases=None, lemma=False):
+        self.ensures_.append(Clause(name, fn, props, cases, lemma))
         return self
 
     def modifies(self, *paths):
